@@ -47,6 +47,7 @@ type ScnPhCase struct {
 	Mode  string `json:"mode"`
 	Name  string `json:"name"`
 	File  string `json:"file"`
+	EOL   string `json:"eol,omitempty"` // line ends of the property file (PhCase.EOL)
 	Pad   string `json:"pad,omitempty"` // padding inside the braces; Name / File / Pad are drawn as in TestPlaceholders (names_test.go)
 	From  int    `json:"from"`
 	To    int    `json:"to"`
@@ -56,7 +57,7 @@ type ScnPhCase struct {
 }
 
 func (c ScnPhCase) ph() PhCase {
-	return PhCase{Src: c.Src, Mode: c.Mode, Name: c.Name, File: c.File, Pad: c.Pad, Decoy: c.Decoy}
+	return PhCase{Src: c.Src, Mode: c.Mode, Name: c.Name, File: c.File, Pad: c.Pad, Decoy: c.Decoy, EOL: c.EOL}
 }
 
 // scnKind derives the kind of the scalar at a path from the documented layout of scenario files.
@@ -373,6 +374,7 @@ func genScnPh(r *vf.Run) func(t *rapid.T) ScnPhCase {
 		c.Name = drawName(t, []string{"VERIF_C17_S", "VERIF_C17_body", "verif_c17_scn", "S17"}, "name")
 		c.File = drawPropFile(t, []string{"scn.properties", "s"}, "file")
 		c.Pad = drawPad(t)
+		c.EOL = drawEOL(t)
 		modes := []string{pWhole, pWhole, pWhole, pWhole, pWhole, pWhole}
 		if kind != skInt && kind != skBool && len(text) > 0 {
 			modes = append(modes, pEmbedded, pEmbedded, pEmbedded)
@@ -583,6 +585,7 @@ func checkScnPh(c ScnPhCase, o *vf.Obs) error {
 		file = ""
 	}
 	spellingClasses(o, c.Src, c.Name, file, c.Pad, how, kind != skString)
+	eolClasses(o, c.Src, c.EOL, how, kind != skString)
 	if c.Decoy != "" && c.Decoy != c.Name {
 		o.ClassIf(mustReject && c.Mode != pInvalid, "missing_with_"+decoyClass(c.Name, c.Decoy)+":"+c.Src)
 		o.Note("decoy", c.Decoy+"="+decoyValue)
